@@ -553,5 +553,35 @@ def rule_a10(repo):
     return renumbering_rule(repo, 'C13.A10')
 
 
+def rule_a11(repo):
+    """An exported proof is read back line by line.  A `variable` line declares a name for the lines that
+    follow it *in its scope*; two sibling subproofs may declare the same name at different types.  Each line must
+    therefore be parsed under the declarations registered so far: registration and parsing are steps of one pass over
+    the lines, registration first.  Declaring everything up front types every line by the last declaration of a name."""
+    res = RuleResult('C13.A11', 'a proof line is parsed under the variable declarations of the lines before it (one pass, registration first)', floor=1)
+    f = repo.func('server/server.py', 'parse_proof')
+    loops = [l for l in ast.walk(f.node) if isinstance(l, ast.For)]
+    reg = [(l, st) for l in loops for st in ast.walk(l) if isinstance(st, ast.Assign) and isinstance(st.targets[0], ast.Subscript) and
+           src(st.targets[0].value, 40).endswith('ctxt.vars')]
+    par = [(l, c) for l in loops for c in ast.walk(l) if isinstance(c, ast.Call) and call_attr(c) == 'parse_proof_rule']
+    need(reg and par, 'parse_proof: registration of variable lines / parsing of a line not found')
+    problems = []
+    for l, c in par:
+        same = [st for l2, st in reg if l2 is l]
+        if not same:
+            problems.append('line %d parses the lines in a loop of its own (line %d); the declarations are registered in another loop (line %d)' % (
+                c.lineno, l.lineno, reg[0][0].lineno))
+            continue
+        if not (c.args and isinstance(l.target, ast.Name) and is_name(c.args[0], l.target.id)):
+            problems.append('line %d does not parse the line of the current iteration' % c.lineno)
+        if min(st.lineno for st in same) > c.lineno:
+            problems.append('line %d parses the line before its own declaration is registered' % c.lineno)
+    res.add('server/server.py :: parse_proof :: declare-then-parse-per-line', not problems,
+            'one loop: a variable line is registered, then the line is parsed' if not problems else
+            '; '.join(problems) + ' -- with two subproofs that each introduce x, at nat and at bool, every line is typed by the last declaration: the '
+            'exported proof of a state that checks no longer parses', f.loc)
+    return res
+
+
 def rules(repo):
-    return [rule_a1(repo), rule_a2(repo), rule_a3(repo), rule_a4(repo), rule_a5(repo), rule_a6(repo), rule_a7(repo), rule_a8(repo), rule_a9(repo), rule_a10(repo)]
+    return [rule_a1(repo), rule_a2(repo), rule_a3(repo), rule_a4(repo), rule_a5(repo), rule_a6(repo), rule_a7(repo), rule_a8(repo), rule_a9(repo), rule_a10(repo), rule_a11(repo)]
